@@ -99,27 +99,12 @@ func (api *API) mapDecodeBasedOnType(ctx context.Context, mapVal any, value refl
 			sliceValue := sliceFromArray(value.Elem())
 			sliceValueType := sliceValue.Type()
 			if sliceValueType.AssignableTo(bytesType) {
-				innerTS, ok := api.typeSettingsRegistry.GetByType(valueType)
-				if !ok {
-					return ierrors.Errorf("missing type settings for interface %s", valueType)
-				}
+				// mirrors the encoding, which only considers the registered type settings here
+				innerTS, _ := api.typeSettingsRegistry.GetByType(valueType)
 
-				fieldKey := keyDefaultSliceArray
-				if innerTS.fieldKey != nil {
-					fieldKey = *innerTS.fieldKey
-				}
-
-				m, ok := mapVal.(map[string]any)
-				if !ok {
-					return ierrors.Errorf("non map[string]any in map when decoding a byte array, got %T instead", mapVal)
-				}
-				fieldValStr, ok := m[fieldKey].(string)
-				if !ok {
-					return ierrors.Errorf("non string value in map when decoding a byte array, got %T instead", m[fieldKey])
-				}
-				byteSlice, err := DecodeHex(fieldValStr)
+				byteSlice, err := mapDecodeArrayOfBytes(mapVal, innerTS)
 				if err != nil {
-					return ierrors.Wrap(err, "failed to read byte slice from map")
+					return err
 				}
 
 				if opts.validation {
@@ -151,13 +136,9 @@ func (api *API) mapDecodeBasedOnType(ctx context.Context, mapVal any, value refl
 		sliceValue := sliceFromArray(value)
 		sliceValueType := sliceValue.Type()
 		if sliceValueType.AssignableTo(bytesType) {
-			fieldValStr, ok := mapVal.(string)
-			if !ok {
-				return ierrors.Errorf("non string value in map when decoding a byte array, got %T instead", mapVal)
-			}
-			byteSlice, err := DecodeHex(fieldValStr)
+			byteSlice, err := mapDecodeArrayOfBytes(mapVal, ts)
 			if err != nil {
-				return ierrors.Wrap(err, "failed to read byte slice from map")
+				return err
 			}
 			copy(sliceValue.Bytes(), byteSlice)
 			fillArrayFromSlice(value, sliceValue)
@@ -231,6 +212,37 @@ func (api *API) mapDecodeBasedOnType(ctx context.Context, mapVal any, value refl
 	}
 
 	return ierrors.Errorf("can't map decode: unsupported type %s", valueType)
+}
+
+// mapDecodeArrayOfBytes reads the bytes of an array of bytes the way mapEncodeSlice wrote them:
+// an array with an object type is an object holding the type and the hex encoded bytes (under the field key),
+// an array without an object type is the hex encoded string itself.
+func mapDecodeArrayOfBytes(mapVal any, ts TypeSettings) ([]byte, error) {
+	hexVal := mapVal
+	if ts.ObjectType() != nil {
+		m, ok := mapVal.(map[string]any)
+		if !ok {
+			return nil, ierrors.Errorf("non map[string]any in map when decoding a byte array with object type, got %T instead", mapVal)
+		}
+
+		fieldKey := keyDefaultSliceArray
+		if ts.fieldKey != nil {
+			fieldKey = *ts.fieldKey
+		}
+		hexVal = m[fieldKey]
+	}
+
+	hexStr, ok := hexVal.(string)
+	if !ok {
+		return nil, ierrors.Errorf("non string value in map when decoding a byte array, got %T instead", hexVal)
+	}
+
+	byteSlice, err := DecodeHex(hexStr)
+	if err != nil {
+		return nil, ierrors.Wrap(err, "failed to read byte slice from map")
+	}
+
+	return byteSlice, nil
 }
 
 // num parse func returns a num or an error.
@@ -335,8 +347,11 @@ func (api *API) mapDecodeInterface(
 		return ierrors.Wrapf(ErrInterfaceUnderlyingTypeNotRegistered, "object code: %d, interface: %s", objectCode, valueType)
 	}
 
+	// mirrors the encoding, which passes the registered type settings of the underlying type
+	elemTypeSettings, _ := api.typeSettingsRegistry.GetByType(objectType)
+
 	objectValue := reflect.New(objectType).Elem()
-	if err := api.mapDecode(ctx, m, objectValue, ts, opts); err != nil {
+	if err := api.mapDecode(ctx, m, objectValue, elemTypeSettings, opts); err != nil {
 		return ierrors.WithStack(err)
 	}
 	value.Set(objectValue)
